@@ -258,6 +258,9 @@ def extract(ctx=None):
     facts["connectDedup"] = extract_connect(_method(ut_tree, "CallbackRegistry", "connect"))
     facts["processForward"], facts["processCollectsWhenIgnoring"] = extract_process(_method(ut_tree, "CallbackRegistry", "process"))
     facts.update(extract_percall(re_tree))
+    ua = _method(re_tree, "Dispatcher", "unsubscribe_all")
+    facts["unsubAllIsLoop"] = [_src(s) for s in P.body_wo_doc(ua)] == [
+        "for public_token in list(self._token_mapping.keys()):\n    self.unsubscribe(public_token)"]
     names = [d.name for d in DocumentNames]
     out = [
         "-- GENERATED by harness/props/dispcommon.py from src/bluesky/run_engine.py and src/bluesky/utils/__init__.py -- do not edit.",
@@ -276,6 +279,7 @@ def extract(ctx=None):
         "perCallSubsTemp": "__call__: `self._temp_callback_ids.add(self.subscribe(func, name))`",
         "inPlanSubscribeTemp": "_subscribe: `self._temp_callback_ids.add(token)`",
         "inPlanUnsubscribeForgets": "_unsubscribe: `self._temp_callback_ids.remove(token)`",
+        "unsubAllIsLoop": "Dispatcher.unsubscribe_all is exactly `for public_token in list(self._token_mapping.keys()): self.unsubscribe(public_token)`",
     }
     for k, doc in docs.items():
         out += [f"/-- {doc} -/", f"def {k} : Bool := {'true' if facts[k] else 'false'}"]
@@ -476,6 +480,9 @@ def run_disp(case):
         elif o == "emit":
             rep, _ = _emit(pool, d.process, op["k"], {"id": op["doc"]})
             replies.append(rep)
+        elif o == "unsuball":
+            d.unsubscribe_all()
+            replies.append(None)
         else:
             raise ValueError(o)
         snaps[i] = snapshot(pool, d)
@@ -602,6 +609,10 @@ def run_re(case):
         elif o == "unsub":
             trace.append({"op": "unsub", "tok": op["tok"]})
             RE.unsubscribe(op["tok"])
+            replies.append(None)
+        elif o == "unsuball":
+            trace.append({"op": "unsuball"})
+            RE.dispatcher.unsubscribe_all()
             replies.append(None)
         elif o == "call":
             t = {"op": "call", "subs": None, "given": [list(x) for x in expand_subs(op["subs"])]}
@@ -732,6 +743,9 @@ def walk_spec(case, obs, on_emit, bad):
             spec.remove(op["tok"], "unsubscribed")
         elif o == "punsub":
             spec.remove(op["tok"], "unsubscribed")
+        elif o == "unsuball":
+            for tok in list(spec.live):
+                spec.remove(tok, "unsubscribed-all")
         elif o == "call":
             call_no += 1
             spec.drop_temporary()
@@ -792,9 +806,11 @@ def gen_disp(rng, raising=False):
             ops.append({"op": "sub", "f": rng.randrange(nf), "name": name})
             if name != "bogus":
                 issued += 1
-        elif r < 0.65:
+        elif r < 0.62:
             tok = rng.randrange(issued) if issued and rng.random() < 0.93 else rng.randrange(0, issued + 3)
             ops.append({"op": "unsub", "tok": tok})
+        elif r < 0.65:
+            ops.append({"op": "unsuball"})
         else:
             ops.append({"op": "emit", "k": rng.choice(MAIN_KINDS + ["start", "event", "resource"]), "doc": doc})
             doc += 1
@@ -812,7 +828,7 @@ def exhaustive_disp(length, tail=True):
     """every history of exactly `length` operations over a small alphabet with two callables"""
     alpha = [{"op": "sub", "f": f, "name": nm} for f in (0, 1) for nm in ("all", "start")]
     alpha += [{"op": "unsub", "tok": t} for t in (0, 1, 2)]
-    alpha += [{"op": "emit", "k": "start"}, {"op": "emit", "k": "event"}]
+    alpha += [{"op": "emit", "k": "start"}, {"op": "emit", "k": "event"}, {"op": "unsuball"}]
     for combo in itertools.product(alpha, repeat=length):
         ops = [dict(o) for o in combo]
         if tail:
@@ -856,8 +872,10 @@ def gen_re(rng, raising=False):
             ops.append({"op": "sub", "f": rng.randrange(nf), "name": name})
             if name != "bogus":
                 issued += 1
-        elif r < 0.42 and issued:
+        elif r < 0.40 and issued:
             ops.append({"op": "unsub", "tok": rng.randrange(issued + (1 if rng.random() < 0.1 else 0))})
+        elif r < 0.46 and issued:
+            ops.append({"op": "unsuball"})
         else:
             spec = gen_subs_spec(rng, nf)
             issued += len(expand_subs(spec))
